@@ -7,6 +7,11 @@ package protocol
 // calling it changes nothing the caller can observe and it returns a hasher.
 
 /*@
+// a signed snapshot / batch is built once (signed by the sender, or decoded) and never reassigned
+immutable SignedSnapshot.Snapshot, SignedSnapshot.Signature by Sender.doSign
+immutable BatchSnapshots.Snapshots by Sender.newBatch, Sender.batcher, publisherFactory.New.$2, publisherFactory.New.$1
+immutable Snapshot.EventDigest, Snapshot.HistoryDigest, Snapshot.HyperDigest, Snapshot.Version by none
+
 func ToBalloonProof
   props C02 C12 C13
   requires mr != nil
